@@ -144,7 +144,7 @@ pub fn eval_entry(e: &Entry, f: usize, s: &str) -> Outcome {
 // ---------------------------------------------------------------------------------------------
 // requests and their faults
 
-pub const FAULT_NAMES: [&str; 26] = [
+pub const FAULT_NAMES: [&str; 27] = [
     "truncate",
     "replace_char",
     "delete_char",
@@ -171,6 +171,7 @@ pub const FAULT_NAMES: [&str; 26] = [
     "unfinished_number",
     "dangling_copula_prefix",
     "deep_nesting",
+    "empty_container",
 ];
 
 #[derive(Clone, Debug)]
@@ -286,7 +287,7 @@ fn gen_request(ch: &mut Choices, gp: &GenParams, fault_rate: u32, f: usize) -> R
     let a_punct = || it.punct.clone().unwrap_or_else(|| fmt.sentence.punctuation_judgement.to_string());
     let a_stamp = || it.stamp.clone().filter(|s| !s.is_empty()).unwrap_or_else(|| fmt.format_stamp(&Stamp::Present));
     // item-level and character-level faults; index 0 (truncate) is the "simplest"
-    let which = ch.weighted(&[14, 8, 6, 8, 9, 7, 5, 5, 5, 4, 4, 7, 5, 4, 3, 3, 1, 1, 3, 3, 2, 3, 6, 5, 5, 3]);
+    let which = ch.weighted(&[14, 8, 6, 8, 9, 7, 5, 5, 5, 4, 4, 7, 5, 4, 3, 3, 1, 1, 3, 3, 2, 3, 6, 5, 5, 3, 4]);
     faults.push(which);
     let text = match which {
         0 => {
@@ -418,6 +419,18 @@ fn gen_request(ch: &mut Choices, gp: &GenParams, fault_rate: u32, f: usize) -> R
                 format!("{head}{prefix}")
             }
         }
+        26 => {
+            // a container with nothing in it where the term should be (or inside the term)
+            let c = &fmt.compound;
+            let empty = match ch.choose(5) {
+                0 => format!("{}{}", c.brackets_set_extension.0, c.brackets_set_extension.1),
+                1 => format!("{}{}", c.brackets_set_intension.0, c.brackets_set_intension.1),
+                2 => format!("{}{}{} {}", c.brackets.0, c.connecter_product, c.separator, c.brackets.1),
+                3 => format!("{}{}{} {}", c.brackets.0, c.connecter_conjunction_sequential, c.separator, c.brackets.1),
+                _ => format!("{}{}{} {} b{}", fmt.statement.brackets.0, c.brackets_set_extension.0, c.brackets_set_extension.1, fmt.statement.copula_inheritance, fmt.statement.brackets.1),
+            };
+            join(&[&it.budget, &Some(empty), &it.punct, &it.stamp, &it.truth])
+        }
         25 => {
             // many unclosed opening brackets in front
             let c = &fmt.compound;
@@ -453,7 +466,7 @@ enum Op {
 
 #[derive(Default, Clone)]
 pub struct SessionsRunStats {
-    pub faults: [u64; 26],
+    pub faults: [u64; 27],
     pub requests: u64,
     pub requests_faulty: u64,
     pub ops: u64,
